@@ -1,3 +1,646 @@
-//! C07 — not built yet.
-pub const BUILT: bool = false;
-pub fn run(_rep: &mut vx::Report) {}
+//! C07 — every supported stream filter decodes exactly what a reference encoder encoded.
+//!
+//! Everything goes through the library's real stream-decode entry point
+//! (`PdfStream { dict, data }.decode(&ParseOptions::default())`, the call every reader path ends
+//! in). The encoders are refpdf's (written from ISO 32000-1 §7.4) plus third-party ones
+//! (miniz through flate2 for Flate, `weezl` for LZW, `fax` for CCITT). Nothing is sampled.
+//!
+//! Sections
+//!  * `single-small`   every string of length ≤4 over a 10-byte alphabet × filter × encoder variant
+//!  * `single-first-bytes` every 2-byte prefix (all 65 536) in three shapes × filter
+//!  * `patterns`       4 pattern generators at EVERY length 0..=4200 (thorough 0..=9000) × filter ×
+//!                     encoder variant — crosses the LZW 511/1023/2047 width steps and the
+//!                     4096 table reset, for both EarlyChange values, refpdf and weezl encodings
+//!  * `chains`         all 259 /Filter sequences of length ≤3 over the six filters × 118 data strings
+//!  * `ascii-decor`    ASCIIHex/ASCII85: white space of every kind every 1/7/64 characters,
+//!                     leading/trailing blanks, EOD present/absent (+ RunLength EOD absent)
+//!  * `predictors`     Predictor {2,10..15} × Colors 1-4 × BitsPerComponent {1,2,4,8,16} ×
+//!                     Columns 1..16 (thorough 1..64) × rows 1..3 × 4 data patterns × carrier;
+//!                     predictor 15: every per-row filter-type choice (5^rows)
+//!  * `ccitt`          K ∈ {-1, 0, 0 with EndOfLine} × BlackIs1 × Columns {1..16,64} × rows 1..3 ×
+//!                     every bitmap (≤12 pixels quick, ≤16 thorough), encoded through `fax`
+//!  * `dict-forms`     /Filter and /DecodeParms as one-element arrays, explicit default parameters
+use crate::util::filt::*;
+use refpdf::filters as rf;
+use serde_json::json;
+use vx::{Ctx, Explore, Report};
+
+pub const BUILT: bool = true;
+
+/// 00 01 7F 80 FF: extremes / sign boundaries (RunLength length bytes, LZW high bits);
+/// 'A' plain; '~' '>' 'z' are the ASCII85/ASCIIHex meta characters; 'T' (0x54) makes the first
+/// ASCII85 digit '<'.
+const ALPHA: [u8; 10] = [0x00, 0x01, 0x7F, 0x80, 0xFF, b'A', b'~', b'>', b'z', b'T'];
+
+#[derive(Clone, Copy, PartialEq, Eq, Debug, Hash)]
+enum Class {
+    Match,
+    Wrong,
+    Rejected,
+    Panic,
+}
+fn classify(got: &LibResult, want: &[u8]) -> Class {
+    match got {
+        Ok(Ok(v)) if v == want => Class::Match,
+        Ok(Ok(_)) => Class::Wrong,
+        Ok(Err(_)) => Class::Rejected,
+        Err(_) => Class::Panic,
+    }
+}
+fn generic_key(stem: &str, got: &LibResult) -> String {
+    match got {
+        Err(p) => format!("C07/{stem}-panic@{}", vx::panic_site(p)),
+        Ok(Err(_)) => format!("C07/{stem}-rejects-reference-encoding"),
+        Ok(Ok(_)) => format!("C07/{stem}-wrong-bytes"),
+    }
+}
+
+/// Strip white space (ISO 32000-1 Table 1) — used only to recognise a known-defect signature.
+fn strip_ws(d: &[u8]) -> Vec<u8> {
+    d.iter().copied().filter(|&b| !matches!(b, 0 | 9 | 10 | 12 | 13 | 32)).collect()
+}
+
+/// Known-defect signatures of a single ASCII85 stage (KF-C07-2): the decoder looks for an
+/// optional `<~` prefix and, when the first character is `<` but the second is not `~`,
+/// forgets to put the second character back. Recognised only when the output is exactly the
+/// reference decoding of the stream with its second character removed.
+fn a85_known_signature(raw: &[u8], got: &LibResult) -> Option<&'static str> {
+    let s = strip_ws(raw);
+    if s.len() >= 2 && s[0] == b'<' && s[1] != b'~' {
+        let mut t = s.clone();
+        t.remove(1);
+        match (rf::ascii85_decode(&t), got) {
+            (Ok(w), Ok(Ok(g))) if w == *g => return Some("C07/ascii85-leading-lt-swallows-next-character"),
+            (Err(_), Ok(Err(_))) => return Some("C07/ascii85-leading-lt-swallows-next-character"),
+            _ => {}
+        }
+    }
+    None
+}
+
+fn key_single(f: F, raw: &[u8], got: &LibResult) -> String {
+    if f == F::A85 {
+        if let Some(k) = a85_known_signature(raw, got) {
+            return k.to_string();
+        }
+    }
+    generic_key(f.short(), got)
+}
+
+fn all_strings(alpha: &[u8], max_len: usize) -> Vec<Vec<u8>> {
+    let mut out: Vec<Vec<u8>> = vec![vec![]];
+    let mut start = 0;
+    for _ in 0..max_len {
+        let end = out.len();
+        for i in start..end {
+            for &a in alpha {
+                let mut s = out[i].clone();
+                s.push(a);
+                out.push(s);
+            }
+        }
+        start = end;
+    }
+    out
+}
+
+/// (filter, variant) pairs; `all` = every encoder variant, otherwise variant 0 only.
+fn filter_variants(all: bool) -> Vec<(F, usize)> {
+    let mut v = Vec::new();
+    for f in ALL_F {
+        for k in 0..(if all { f.variants() } else { 1 }) {
+            v.push((f, k));
+        }
+    }
+    v
+}
+
+pub fn run(rep: &mut Report) {
+    let thorough = rep.tier.is_thorough();
+    rep.rule(
+        "one case = (filter chain + DecodeParms, reference-encoded bytes); inputs are distinct by the hash of \
+         (chain, parameters, encoded bytes); non-trivial = the encoded bytes differ from the decoded data (for \
+         predictor cases: the prediction changed at least one byte); loops over dense ranges (every length, every \
+         second byte, every bitmap) are counted as evaluations",
+    );
+    rep.assume("refpdf::filters encoders are conforming (validated at setup against weezl, flate2/zune-inflate and round trips); flate2/miniz, weezl and fax encoders are conforming");
+    rep.assume("streams are built as PdfStream{dict,data} and decoded with PdfStream::decode(&ParseOptions::default()) — the entry point all reader paths use");
+    rep.assume("EOD-less ASCIIHex/ASCII85/RunLength data is outside the standard: Ok(original) and Err are both accepted there, only Ok(other bytes) is flagged");
+    rep.assume("TIFF predictor 2 test data has zero padding bits at the end of each row (the standard does not say what a decoder does with them)");
+
+    single_small(rep);
+    single_first_bytes(rep, thorough);
+    patterns(rep, thorough);
+    chains(rep);
+    ascii_decor(rep);
+    predictors(rep, thorough);
+    ccitt(rep, thorough);
+    dict_forms(rep);
+}
+
+// ------------------------------------------------------------------------------------------
+
+fn single_small(rep: &mut Report) {
+    let fv = filter_variants(true);
+    rep.explore("single-small", Explore::full(), |c: &mut Ctx| {
+        let (f, var) = *c.pick_from("filter-variant", &fv);
+        let len = c.choose("len", 5);
+        let data: Vec<u8> = (0..len).map(|_| *c.pick_from("byte", &ALPHA)).collect();
+        let raw = ref_encode(f, var, &data);
+        let st = [Stage::plain(f)];
+        c.input(vx::h64(&(f, &raw)));
+        c.nontrivial();
+        let s = make_stream(&st, raw.clone(), false);
+        let got = lib_decode(&s);
+        let cl = classify(&got, &data);
+        c.outcome(vx::h64(&(cl, got.as_ref().ok().and_then(|r| r.as_ref().ok()))));
+        if cl != Class::Match {
+            c.fail(
+                key_single(f, &raw, &got),
+                format!("filter={} encoder={} data={} encoded={} got={}", f.short(), f.variant_name(var), vx::hex(&data), vx::show_bytes(&raw, 64), short_err(&got)),
+            );
+        }
+        c.sample(json!({"filter": f.short(), "encoder": f.variant_name(var), "data_hex": vx::hex(&data), "encoded": vx::show_bytes(&raw, 64)}));
+    });
+}
+
+fn single_first_bytes(rep: &mut Report, thorough: bool) {
+    let fv = filter_variants(thorough);
+    rep.explore("single-first-bytes", Explore::full(), |c: &mut Ctx| {
+        let (f, var) = *c.pick_from("filter-variant", &fv);
+        let b0 = c.choose("b0", 256) as u8;
+        let st = [Stage::plain(f)];
+        let mut ih = 0u64;
+        let mut oh = 0u64;
+        let mut reported = 0;
+        for b1 in 0..=255u8 {
+            // the pair alone, the pair in front of a tail, the pair behind a head
+            let shapes: [Vec<u8>; 3] = [vec![b0, b1], vec![b0, b1, 0x80, 0x01], vec![b'A', b0, b1, 0x7F, 0xFF]];
+            for data in shapes {
+                let raw = ref_encode(f, var, &data);
+                ih = vx::hmix(ih, vx::hbytes(&raw));
+                let s = make_stream(&st, raw.clone(), false);
+                let got = lib_decode(&s);
+                let cl = classify(&got, &data);
+                oh = vx::hmix(oh, vx::h64(&cl));
+                if cl != Class::Match && reported < 3 {
+                    reported += 1;
+                    c.fail(
+                        key_single(f, &raw, &got),
+                        format!("filter={} encoder={} data={} encoded={} got={}", f.short(), f.variant_name(var), vx::hex(&data), vx::show_bytes(&raw, 64), short_err(&got)),
+                    );
+                }
+            }
+        }
+        c.add_evaluations(256 * 3 - 1);
+        c.input(vx::hmix(vx::h64(&(f, var, b0)), ih));
+        c.outcome(oh);
+        c.nontrivial();
+        c.sample(json!({"filter": f.short(), "encoder": f.variant_name(var), "b0": b0, "b1": "0..=255", "shapes": ["b0 b1", "b0 b1 80 01", "41 b0 b1 7F FF"]}));
+    });
+}
+
+fn patterns(rep: &mut Report, thorough: bool) {
+    let fv = filter_variants(true);
+    let max_len: usize = if thorough { 9000 } else { 4200 };
+    const BLOCK: usize = 100;
+    let blocks = max_len / BLOCK + 1;
+    rep.note("patterns_max_len", json!(max_len));
+    rep.explore("patterns", Explore::full(), |c: &mut Ctx| {
+        let (f, var) = *c.pick_from("filter-variant", &fv);
+        let pat = c.choose("pattern", PATTERNS.len());
+        let blk = c.choose("length-block", blocks);
+        let st = [Stage::plain(f)];
+        let lo = blk * BLOCK;
+        let hi = ((blk + 1) * BLOCK - 1).min(max_len);
+        let full = pattern(pat, hi);
+        let mut ih = 0u64;
+        let mut oh = 0u64;
+        let mut reported = 0;
+        for n in lo..=hi {
+            let data = &full[..n];
+            let raw = ref_encode(f, var, data);
+            ih = vx::hmix(ih, vx::hbytes(&raw));
+            let s = make_stream(&st, raw.clone(), false);
+            let got = lib_decode(&s);
+            let cl = classify(&got, data);
+            oh = vx::hmix(oh, vx::h64(&cl));
+            if cl != Class::Match && reported < 2 {
+                reported += 1;
+                let first_diff = match &got {
+                    Ok(Ok(g)) => g.iter().zip(data).position(|(a, b)| a != b).unwrap_or(g.len().min(data.len())),
+                    _ => 0,
+                };
+                c.fail(
+                    format!("{}-at-length", key_single(f, &raw, &got)),
+                    format!("filter={} encoder={} pattern={} length={n} encoded_len={} first_difference_at={first_diff} got={}", f.short(), f.variant_name(var), PATTERNS[pat], raw.len(), short_err(&got)),
+                );
+            }
+        }
+        c.add_evaluations((hi - lo) as u64);
+        c.input(vx::hmix(vx::h64(&(f, var, pat, blk)), ih));
+        c.outcome(oh);
+        if hi > 0 {
+            c.nontrivial();
+        }
+        c.sample(json!({"filter": f.short(), "encoder": f.variant_name(var), "pattern": PATTERNS[pat], "lengths": format!("{lo}..={hi}")}));
+    });
+}
+
+fn chain_data() -> Vec<Vec<u8>> {
+    let mut v = all_strings(&ALPHA, 2);
+    v.push(b"Test".to_vec());
+    v.push(vec![0; 4]);
+    v.push(vec![0; 8]);
+    v.push(pattern(1, 300));
+    v.push(pattern(0, 600));
+    v.push(pattern(2, 700));
+    v.push(pattern(3, 1100));
+    v
+}
+
+fn chains(rep: &mut Report) {
+    let data_set = chain_data();
+    rep.note("chain_data_strings", json!(data_set.len()));
+    rep.explore("chains", Explore::full(), |c: &mut Ctx| {
+        let n = c.choose("chain-length", 4);
+        let fs: Vec<F> = (0..n).map(|_| *c.pick_from("filter", &ALL_F)).collect();
+        let data = c.pick_from("data", &data_set);
+        // /Filter [F1 F2 F3] is decoded F1 first, so the data was encoded F3 first
+        let mut raw = data.clone();
+        for f in fs.iter().rev() {
+            raw = ref_encode(*f, 0, &raw);
+        }
+        let st: Vec<Stage> = fs.iter().map(|f| Stage::plain(*f)).collect();
+        c.input(vx::h64(&(&fs, &raw)));
+        if n > 0 {
+            c.nontrivial();
+        }
+        let s = make_stream(&st, raw.clone(), false);
+        let got = lib_decode(&s);
+        let cl = classify(&got, data);
+        c.outcome(vx::h64(&(cl, vx::hbytes(data))));
+        if cl != Class::Match {
+            // a chain whose first stage is ASCII85 sees the raw bytes: same known signature
+            let key = if n == 1 {
+                key_single(fs[0], &raw, &got)
+            } else if fs[0] == F::A85 && chain_a85_signature(&fs, &raw, &got) {
+                "C07/ascii85-leading-lt-swallows-next-character".to_string()
+            } else {
+                generic_key("chain", &got)
+            };
+            c.fail(
+                key,
+                format!("chain={:?} data={} encoded={} got={}", fs.iter().map(|f| f.short()).collect::<Vec<_>>(), vx::show_bytes(data, 24), vx::show_bytes(&raw, 48), short_err(&got)),
+            );
+        }
+        c.sample(json!({"chain": fs.iter().map(|f| f.short()).collect::<Vec<_>>(), "data_len": data.len(), "encoded_len": raw.len()}));
+    });
+}
+
+/// Known signature KF-C07-2 inside a chain: the first stage is ASCII85, its input starts with
+/// `<x`; the library's result equals the reference decoding of the chain with that second
+/// character removed (or both fail).
+fn chain_a85_signature(fs: &[F], raw: &[u8], got: &LibResult) -> bool {
+    let s = strip_ws(raw);
+    if !(s.len() >= 2 && s[0] == b'<' && s[1] != b'~') {
+        return false;
+    }
+    let mut t = s;
+    t.remove(1);
+    let mut cur: Result<Vec<u8>, String> = Ok(t);
+    for f in fs {
+        cur = cur.and_then(|d| match f {
+            F::Flate => rf::flate_decode(&d),
+            F::Lzw1 => rf::lzw_decode(&d, true),
+            F::Lzw0 => rf::lzw_decode(&d, false),
+            F::AHx => rf::asciihex_decode(&d),
+            F::A85 => rf::ascii85_decode(&d),
+            F::RL => rf::runlength_decode(&d),
+        });
+    }
+    match (cur, got) {
+        (Ok(w), Ok(Ok(g))) => w == *g,
+        // the damaged intermediate data is garbage for the next stage: any non-panic answer
+        (Err(_), Ok(_)) => true,
+        _ => false,
+    }
+}
+
+// ------------------------------------------------------------------------------------------
+
+const SEPS: [(&str, &[u8]); 7] = [("LF", b"\n"), ("CR", b"\r"), ("CRLF", b"\r\n"), ("SP", b" "), ("TAB", b"\t"), ("FF", b"\x0c"), ("NUL", b"\x00")];
+const EVERY: [usize; 3] = [1, 7, 64];
+const TRAIL: [&[u8]; 4] = [b"", b"\n", b"   ", b"\r\n"];
+const LEAD: [&[u8]; 2] = [b"", b"\n "];
+
+fn decorate(enc: &[u8], eod_len: usize, brk: Option<(&[u8], usize)>, keep_eod: bool, lead: &[u8], trail: &[u8]) -> Vec<u8> {
+    let (body, eod) = enc.split_at(enc.len() - eod_len);
+    let mut o = lead.to_vec();
+    for (i, &b) in body.iter().enumerate() {
+        o.push(b);
+        if let Some((sep, every)) = brk {
+            if (i + 1) % every == 0 {
+                o.extend_from_slice(sep);
+            }
+        }
+    }
+    if keep_eod {
+        o.extend_from_slice(eod);
+    }
+    o.extend_from_slice(trail);
+    o
+}
+
+fn ascii_decor(rep: &mut Report) {
+    let mut data_set = all_strings(&ALPHA, 3);
+    data_set.push(pattern(3, 100));
+    data_set.push(pattern(1, 300));
+    data_set.push(vec![0; 9]);
+    // (filter, variant, EOD length)
+    let kinds: [(F, usize, usize); 4] = [(F::AHx, 0, 1), (F::AHx, 1, 1), (F::A85, 0, 2), (F::RL, 0, 1)];
+    rep.explore("ascii-decor", Explore::full(), |c: &mut Ctx| {
+        let (f, var, eod_len) = *c.pick_from("filter", &kinds);
+        let keep_eod = !c.flag("eod-absent");
+        let (brk, brk_name, lead, trail): (Option<(&[u8], usize)>, String, &[u8], &[u8]) = if f == F::RL {
+            // binary filter: white space is data; only the EOD marker is varied
+            (None, "none".into(), b"", b"")
+        } else {
+            let b = c.choose("break", 1 + SEPS.len() * EVERY.len());
+            let brk = if b == 0 { None } else { Some((SEPS[(b - 1) / EVERY.len()].1, EVERY[(b - 1) % EVERY.len()])) };
+            let name = if b == 0 { "none".to_string() } else { format!("{} every {}", SEPS[(b - 1) / EVERY.len()].0, EVERY[(b - 1) % EVERY.len()]) };
+            let lead = *c.pick_from("lead", &LEAD);
+            let trail = *c.pick_from("trail", &TRAIL);
+            (brk, name, lead, trail)
+        };
+        let data = c.pick_from("data", &data_set);
+        let enc = ref_encode(f, var, data);
+        let raw = decorate(&enc, eod_len, brk, keep_eod, lead, trail);
+        c.input(vx::h64(&(f, &raw)));
+        if raw != enc {
+            c.nontrivial();
+        }
+        let s = make_stream(&[Stage::plain(f)], raw.clone(), false);
+        let got = lib_decode(&s);
+        let cl = classify(&got, data);
+        c.outcome(vx::h64(&(cl, keep_eod, vx::hbytes(data))));
+        let detail = || format!("filter={} break={brk_name} eod={} lead={:?} trail={:?} data={} stream={} got={}", f.short(), keep_eod, vx::show_bytes(lead, 8), vx::show_bytes(trail, 8), vx::hex(&data[..data.len().min(16)]), vx::show_bytes(&raw, 64), short_err(&got));
+        match (cl, keep_eod) {
+            (Class::Match, _) => {}
+            (Class::Rejected, false) => {} // EOD-less data: outside the standard, an error is acceptable
+            (_, false) => c.fail(format!("{}-without-eod", key_single(f, &raw, &got)), detail()),
+            (_, true) => {
+                let uses_nul = brk.map(|(s, _)| s == b"\x00").unwrap_or(false);
+                let key = if uses_nul && cl == Class::Rejected {
+                    // exact known signature (KF-C07-3): NUL (white space per ISO 32000-1 Table 1) is rejected
+                    format!("C07/{}-rejects-nul-as-white-space", f.short())
+                } else if brk.is_some() || !lead.is_empty() || !trail.is_empty() {
+                    match a85_known_signature(&raw, &got) {
+                        Some(k) if f == F::A85 => k.to_string(),
+                        _ => format!("{}-with-white-space", generic_key(f.short(), &got)),
+                    }
+                } else {
+                    key_single(f, &raw, &got)
+                };
+                c.fail(key, detail());
+            }
+        }
+        c.sample(json!({"filter": f.short(), "break": brk_name, "eod": keep_eod, "stream": vx::show_bytes(&raw, 48)}));
+    });
+}
+
+// ------------------------------------------------------------------------------------------
+
+const PRED_PATTERNS: [&str; 4] = ["counter", "all-pairs-new", "mixed", "high"];
+fn pred_data(kind: usize, n: usize) -> Vec<u8> {
+    match kind {
+        0 => (0..n).map(|i| (i * 3 + 1) as u8).collect(),
+        1 => pattern(2, n + 3)[3..].to_vec(),
+        2 => pattern(3, n),
+        _ => (0..n).map(|i| ((255 - (i * 7) % 5) as u8) ^ (if i % 2 == 1 { 0x80u8 } else { 0u8 })).collect(),
+    }
+}
+
+fn predictors(rep: &mut Report, thorough: bool) {
+    let max_cols: usize = if thorough { 64 } else { 16 };
+    rep.note("predictor_columns", json!(format!("1..={max_cols}")));
+    const PREDS: [i64; 7] = [2, 10, 11, 12, 13, 14, 15];
+    const BPCS: [usize; 5] = [1, 2, 4, 8, 16];
+    const CARRIERS: [F; 3] = [F::Flate, F::Lzw1, F::Lzw0];
+    rep.explore("predictors", Explore::full(), |c: &mut Ctx| {
+        let carrier = *c.pick_from("carrier", &CARRIERS);
+        let predictor = *c.pick_from("predictor", &PREDS);
+        let colors = 1 + c.choose("colors", 4);
+        let bpc = *c.pick_from("bpc", &BPCS);
+        let columns = 1 + c.choose("columns", max_cols);
+        let rows = 1 + c.choose("rows", 3);
+        let pat = c.choose("data-pattern", PRED_PATTERNS.len());
+        let p = rf::PredParams { predictor, colors, bpc, columns };
+        let rb = p.row_bytes();
+        // row filter types: predictor 10..14 → the named type on every row, or (Flate carrier
+        // only) a rotation that differs from the named type — the tag byte of each row is what
+        // counts (§7.4.4.4); predictor 15 (Flate carrier) → every assignment of the 5 types
+        let tags: Vec<u8> = match predictor {
+            2 => vec![],
+            15 if carrier == F::Flate => (0..rows).map(|_| c.choose("row-filter-type", 5) as u8).collect(),
+            15 => (0..rows).map(|r| ((r * 2 + 1) % 5) as u8).collect(),
+            _ => {
+                let base = (predictor - 10) as u8;
+                let rot = carrier == F::Flate && c.flag("tags-differ-from-predictor-value");
+                (0..rows).map(|r| if rot { (base + 1 + r as u8) % 5 } else { base }).collect()
+            }
+        };
+        let mut data = pred_data(pat, rb * rows);
+        if predictor == 2 {
+            let pad = rb * 8 - colors * bpc * columns;
+            if pad > 0 {
+                for r in 0..rows {
+                    data[(r + 1) * rb - 1] &= 0xFFu8 << pad;
+                }
+            }
+        }
+        let predicted = if predictor == 2 { rf::tiff_predict_encode(&data, &p) } else { rf::png_predict_encode(&data, &p, &|r| tags[r]) };
+        let raw = ref_encode(carrier, 0, &predicted);
+        let st = [Stage { f: carrier, parms: vec![("Predictor", predictor), ("Colors", colors as i64), ("BitsPerComponent", bpc as i64), ("Columns", columns as i64)] }];
+        c.input(vx::h64(&(carrier, predictor, colors, bpc, columns, &raw)));
+        let changed = if predictor == 2 { predicted != data } else { predicted.chunks(rb + 1).zip(data.chunks(rb)).any(|(a, b)| &a[1..] != b) };
+        if changed {
+            c.nontrivial();
+        }
+        let s = make_stream(&st, raw, false);
+        let got = lib_decode(&s);
+        let cl = classify(&got, &data);
+        c.outcome(vx::h64(&(cl, vx::hbytes(&data))));
+        if cl != Class::Match {
+            let key = match &got {
+                // exact known signature (KF-C07-1): the horizontally differenced bytes come back untouched
+                Ok(Ok(g)) if predictor == 2 && *g == predicted => "C07/tiff-predictor-2-not-applied".to_string(),
+                _ => generic_key(&format!("predictor-{}", if predictor == 2 { "tiff" } else { "png" }), &got),
+            };
+            c.fail(
+                key,
+                format!("carrier={} Predictor={predictor} Colors={colors} BitsPerComponent={bpc} Columns={columns} rows={rows} row-types={tags:?} data={} predicted={} got={}", carrier.short(), vx::hex(&data[..data.len().min(24)]), vx::hex(&predicted[..predicted.len().min(24)]), short_err(&got)),
+            );
+        }
+        c.sample(json!({"carrier": carrier.short(), "Predictor": predictor, "Colors": colors, "BitsPerComponent": bpc, "Columns": columns, "rows": rows, "row_types": tags, "pattern": PRED_PATTERNS[pat]}));
+    });
+}
+
+// ------------------------------------------------------------------------------------------
+
+fn ccitt(rep: &mut Report, thorough: bool) {
+    use oxidize_pdf::parser::objects::{PdfDictionary, PdfName, PdfObject, PdfStream};
+    use refpdf::ccitt::{encode_g3_1d, encode_g4, Bitmap};
+    let max_all_pixels: usize = if thorough { 16 } else { 12 };
+    rep.note("ccitt", json!(format!("K=-1 (T.6, EndOfBlock true) through fax::encoder; K=0 (T.4 1-D, EndOfBlock false, with and without EndOfLine) from fax's code tables; K>0 (mixed 2-D) dropped: the fax crate has no encoder for it; EncodedByteAlign dropped; every bitmap for Columns*rows <= {max_all_pixels}, 6 fixed bitmaps above")));
+    let cols: Vec<usize> = (1..=16).chain([64]).collect();
+    const MODES: [&str; 3] = ["g4", "g3-1d", "g3-1d-eol"];
+    rep.explore("ccitt", Explore::full(), |c: &mut Ctx| {
+        let mode = c.choose("mode", 3);
+        let black_is_1 = c.flag("BlackIs1");
+        let columns = *c.pick_from("columns", &cols);
+        let rows = 1 + c.choose("rows", 3);
+        let npix = columns * rows;
+        let bitmaps: Vec<Bitmap> = if npix <= max_all_pixels {
+            (0..(1u32 << npix)).map(|bits| Bitmap::new(columns, (0..rows).map(|y| (0..columns).map(|x| bits >> (y * columns + x) & 1 == 1).collect()).collect())).collect()
+        } else {
+            (0..6)
+                .map(|k| {
+                    Bitmap::new(
+                        columns,
+                        (0..rows)
+                            .map(|y| {
+                                (0..columns)
+                                    .map(|x| match k {
+                                        0 => false,
+                                        1 => true,
+                                        2 => (x + y) % 2 == 1,
+                                        3 => x / (3 + y) % 2 == 0,
+                                        4 => x == y || x + 1 == columns,
+                                        _ => x > 1 && x < columns - 1 - y,
+                                    })
+                                    .collect()
+                            })
+                            .collect(),
+                    )
+                })
+                .collect()
+        };
+        let mut ih = 0u64;
+        let mut oh = 0u64;
+        let mut reported: Vec<String> = Vec::new();
+        for bm in &bitmaps {
+            let raw = match mode {
+                0 => encode_g4(bm),
+                1 => encode_g3_1d(bm, false, false),
+                _ => encode_g3_1d(bm, true, false),
+            };
+            let want = bm.packed(black_is_1);
+            let mut parms = PdfDictionary::new();
+            parms.insert("K".into(), PdfObject::Integer(if mode == 0 { -1 } else { 0 }));
+            parms.insert("Columns".into(), PdfObject::Integer(columns as i64));
+            parms.insert("Rows".into(), PdfObject::Integer(rows as i64));
+            parms.insert("BlackIs1".into(), PdfObject::Boolean(black_is_1));
+            if mode != 0 {
+                parms.insert("EndOfBlock".into(), PdfObject::Boolean(false));
+            }
+            if mode == 2 {
+                parms.insert("EndOfLine".into(), PdfObject::Boolean(true));
+            }
+            let mut d = PdfDictionary::new();
+            d.insert("Filter".into(), PdfObject::Name(PdfName("CCITTFaxDecode".into())));
+            d.insert("DecodeParms".into(), PdfObject::Dictionary(parms));
+            let s = PdfStream { dict: d, data: raw.clone() };
+            ih = vx::hmix(ih, vx::hbytes(&raw));
+            let got = lib_decode(&s);
+            let cl = classify(&got, &want);
+            oh = vx::hmix(oh, vx::h64(&cl));
+            if cl != Class::Match {
+                let rb = (columns + 7) / 8;
+                let key = match (&got, mode) {
+                    (Err(p), _) => format!("C07/ccitt-{}-panic@{}", MODES[mode], vx::panic_site(p)),
+                    // exact known signature (KF-C07-4): the Group 4 "decoder" hands back the encoded
+                    // bytes cut or zero-padded to Rows * ceil(Columns/8)
+                    (Ok(Ok(g)), 0) if {
+                        let mut stub = raw.clone();
+                        stub.resize(rb * rows, 0);
+                        *g == stub
+                    } => "C07/ccitt-g4-returns-the-encoded-bytes".to_string(),
+                    (Ok(Ok(g)), _) if g.len() != want.len() => format!("C07/ccitt-{}-wrong-length", MODES[mode]),
+                    (Ok(Ok(_)), _) => format!("C07/ccitt-{}-wrong-pixels", MODES[mode]),
+                    (Ok(Err(_)), _) => format!("C07/ccitt-{}-rejects-reference-encoding", MODES[mode]),
+                };
+                if !reported.contains(&key) {
+                    reported.push(key.clone());
+                    c.fail(
+                        key,
+                        format!("mode={} BlackIs1={black_is_1} Columns={columns} Rows={rows} bitmap(black=#)={:?} encoded={} want={} got={}", MODES[mode], bm.rows.iter().map(|r| r.iter().map(|&b| if b { '#' } else { '.' }).collect::<String>()).collect::<Vec<_>>(), vx::hex(&raw), vx::hex(&want), short_err(&got)),
+                    );
+                }
+            }
+        }
+        c.add_evaluations(bitmaps.len() as u64 - 1);
+        c.input(vx::hmix(vx::h64(&(mode, black_is_1, columns, rows)), ih));
+        c.outcome(oh);
+        c.nontrivial();
+        c.sample(json!({"mode": MODES[mode], "BlackIs1": black_is_1, "Columns": columns, "Rows": rows, "bitmaps": bitmaps.len()}));
+    });
+}
+
+// ------------------------------------------------------------------------------------------
+
+fn dict_forms(rep: &mut Report) {
+    let data_set: Vec<Vec<u8>> = {
+        let mut v = all_strings(&ALPHA, 2);
+        v.push(pattern(3, 700));
+        v
+    };
+    // explicit default parameters (ISO 32000-1 Tables 8): must not change anything
+    const DEFAULTS: [&[(&str, i64)]; 4] = [&[], &[("Predictor", 1)], &[("Predictor", 1), ("Colors", 3), ("BitsPerComponent", 8), ("Columns", 5)], &[("EarlyChange", 1)]];
+    rep.explore("dict-forms", Explore::full(), |c: &mut Ctx| {
+        let none = c.flag("no-filter");
+        let data = c.pick_from("data", &data_set).clone();
+        if none {
+            let s = make_stream(&[], data.clone(), false);
+            let got = lib_decode(&s);
+            c.input(vx::h64(&("none", &data)));
+            c.outcome(vx::h64(&classify(&got, &data)));
+            if classify(&got, &data) != Class::Match {
+                c.fail(generic_key("no-filter", &got), format!("data={} got={}", vx::hex(&data[..data.len().min(16)]), short_err(&got)));
+            }
+            return;
+        }
+        let f = *c.pick_from("filter", &ALL_F);
+        let array_form = c.flag("array-form");
+        let dflt = c.choose("explicit-defaults", DEFAULTS.len());
+        let parms: Vec<(&'static str, i64)> = DEFAULTS[dflt]
+            .iter()
+            .filter(|(k, _)| match f {
+                F::Flate => *k != "EarlyChange",
+                // EarlyChange 1 only where it is the truth
+                F::Lzw1 => true,
+                F::Lzw0 => *k != "EarlyChange",
+                _ => false,
+            })
+            .copied()
+            .collect();
+        let raw = ref_encode(f, 0, &data);
+        let st = [Stage { f, parms: parms.clone() }];
+        c.input(vx::h64(&(f, array_form, &parms, &raw)));
+        if array_form || !parms.is_empty() {
+            c.nontrivial();
+        }
+        let s = make_stream(&st, raw.clone(), array_form);
+        let got = lib_decode(&s);
+        let cl = classify(&got, &data);
+        c.outcome(vx::h64(&(cl, vx::hbytes(&data))));
+        if cl != Class::Match {
+            let key = match a85_known_signature(&raw, &got) {
+                Some(k) if f == F::A85 => k.to_string(),
+                _ => format!("{}-{}", generic_key(f.short(), &got), if array_form { "array-form" } else { "with-default-parms" }),
+            };
+            c.fail(key, format!("filter={} array_form={array_form} parms={parms:?} data={} got={}", f.short(), vx::hex(&data[..data.len().min(16)]), short_err(&got)));
+        }
+        c.sample(json!({"filter": f.short(), "array_form": array_form, "parms": format!("{parms:?}"), "data_len": data.len()}));
+    });
+}
